@@ -123,7 +123,8 @@ GIF56 = 'R0lGODlhAQABAIAAAAAAAP///yH5BAEAAAAALAAAAAABAAEAAAIBRAA7'      # 56 cha
 
 OUTPUTS = [lambda: out_display(3), lambda: out_stream('epoch 1: 10%\repoch 1: 50%\repoch 1: 100%'),   # \r progress bar WITHOUT any newline
            lambda: out_stream(), lambda: out_stream('warn\nmore\n', 'stderr'), out_error,
-           lambda: out_display(0), lambda: out_display(2), lambda: out_result(1, '2'), lambda: out_result(3, '<obj at 0x7f3a2c1b9d30>')]
+           lambda: out_display(0), lambda: out_display(2), lambda: out_result(1, '2'), lambda: out_result(3, '<obj at 0x7f3a2c1b9d30>'),
+           lambda: {'output_type': 'display_data', 'metadata': {}, 'data': {}}]
 
 
 def code_cell(source='x = 1\n', outputs=(), ec=None, metadata=None):
@@ -188,13 +189,15 @@ def cell_pool():
         code_cell('len(rows)\n', [{'output_type': 'display_data', 'metadata': {},
                                    'data': {'application/json': 42, 'application/vnd.flags.v1+json': None, 'application/vnd.done.v1+json': True,
                                             'text/plain': '42 rows in the result set\nof the last query\n'}}], 12),
+        # a display with an EMPTY mime bundle (display({}, raw=True)): valid, and the boundary case of every per-bundle loop
+        code_cell('display({}, raw=True)\nprint("shown")\n', [{'output_type': 'display_data', 'metadata': {}, 'data': {}}, out_stream('shown\n')], 13),
     ]
 
 
 def base_notebooks(maxcells=3, minors=(5, 4, 2)):
     pool = cell_pool()
     out = []
-    combos = [(), (0,), (1,), (6,), (11,), (1, 6), (2, 3), (7, 4), (11, 6), (1, 2, 6), (3, 9, 8), (4, 7, 5), (0, 1, 2, 3), (6, 2, 5, 7), (12,), (13, 12), (1, 12, 13), (17,), (1, 17)]
+    combos = [(), (0,), (1,), (6,), (11,), (1, 6), (2, 3), (7, 4), (11, 6), (1, 2, 6), (3, 9, 8), (4, 7, 5), (0, 1, 2, 3), (6, 2, 5, 7), (12,), (13, 12), (1, 12, 13), (17,), (1, 17), (18,), (2, 18)]
     for ci, combo in enumerate(combos):
         if len(combo) > maxcells:
             continue
